@@ -166,6 +166,131 @@ theorem koenig_cover (g : Graph) (hg : g.WF) (M : List (Nat × Nat)) (hM : IsMat
   rw [hc]
   simp [hsize]
 
+/-! ### (c) the matching of Hopcroft-Karp is valid -/
+
+/-- The invariant: `(matched_pairs_u, matched_pairs_v)` describe pairwise vertex-disjoint edges
+    (`Consistent`), and every top-level augmentation attempt `add_augmenting_path(u)` from a free
+    left vertex - successful or not, with any fuel - preserves it. -/
+theorem hk_augment_preserves (g : Graph) (f u : Nat) (s s' : HK) (r : Bool)
+    (hs : Consistent g s) (hfree : s.mU u = none) (h : dfs g f (some u) s = some (r, s')) :
+    Consistent g s' :=
+  dfs_consistent g f u s s' r hs hfree h
+
+/-- The matching returned by `HopcroftKarp(graph)()` consists of edges of the graph and uses no
+    vertex twice (for every graph, well-formed or not). -/
+theorem hk_matching_valid (g : Graph) (M : List (Nat × Nat)) (h : hopcroftKarp g = .ok M) :
+    IsMatching g.edge M := by
+  unfold hopcroftKarp at h
+  split at h
+  · exact absurd h (by simp)
+  · rename_i s hrun
+    simp only [Except.ok.injEq] at h
+    subst h
+    exact collect_isMatching g s (hkLoop_consistent g _ _ s (init_consistent g) hrun)
+
+/-! ### (d) what a BFS without augmenting path leaves behind -/
+
+/-- For a consistent matching the BFS terminates within its fuel, and if it reports "no path"
+    (`dist[NIL] = inf`) the set `R` of left vertices with finite distance contains every free left
+    vertex and every edge leaving `R` ends in a matched right vertex whose partner is in `R`:
+    the hypotheses of `koenig_cover`. -/
+theorem bfs_false_closed (g : Graph) (hg : g.WF) (s : HK) (hs : Consistent g s) :
+    ∃ d, bfs g s = some d ∧
+      (d none = g.inf →
+        (∀ u, u < g.nU → s.mU u = none → d (some u) < g.inf) ∧
+        (∀ u v, u < g.nU → d (some u) < g.inf → g.edge u v →
+          ∃ w, s.mV v = some w ∧ s.mU w = some v ∧ w < g.nU ∧ d (some w) < g.inf)) := by
+  obtain ⟨d, hd, hfin⟩ := bfs_spec g s (hs.mV_lt hg)
+  refine ⟨d, hd, ?_⟩
+  intro hnil
+  constructor
+  · intro u hu hfree
+    have := hfin.inv.free u hu hfree
+    simp only [Graph.inf] at this ⊢
+    omega
+  · intro u v hu hfu huv
+    have hcl := hfin.closed u hu hfu (by simp only; omega) v huv
+    simp only at hcl
+    cases hx : s.mV v with
+    | none => rw [hx, hnil] at hcl; omega
+    | some w =>
+      rw [hx] at hcl
+      exact ⟨w, rfl, hs.bwd v w hx, hs.mV_lt hg v w hx, hcl⟩
+
+/-! ### the whole function -/
+
+/-- `hk_terminates_partial`: every normal exit of `minimum_vertex_cover` is correct - the internal
+    matching is valid and maximum, the two lists are ascending, contain only existing vertices,
+    touch every edge, have combined size `|M|`, and no smaller cover exists.
+    Missing for the full termination clause: that the fuel of the *outer* loop is never exhausted
+    (`hk_phase_progress`); see `mvc_never_fails_partial` for the exits that are excluded. -/
+theorem hk_terminates_partial (g : Graph) (hg : g.WF) (M : List (Nat × Nat)) (cu cv : List Nat)
+    (h : minimumVertexCover g = .ok (M, cu, cv)) :
+    IsMatching g.edge M ∧ IsCover g.edge cu cv ∧ (∀ u ∈ cu, u < g.nU) ∧ (∀ v ∈ cv, v < g.nV) ∧
+    cu.Pairwise (· < ·) ∧ cv.Pairwise (· < ·) ∧ cu.length + cv.length = M.length ∧
+    (∀ M', IsMatching g.edge M' → M'.length ≤ M.length) ∧
+    (∀ cu' cv', IsCover g.edge cu' cv' → cu.length + cv.length ≤ cu'.length + cv'.length) := by
+  unfold minimumVertexCover at h
+  split at h
+  · exact absurd h (by simp)
+  · rename_i M0 hM0
+    split at h
+    · exact absurd h (by simp)
+    · rename_i c hc
+      simp only [Except.ok.injEq, Prod.mk.injEq] at h
+      obtain ⟨rfl, rfl, rfl⟩ := h
+      have hM := hk_matching_valid g M0 hM0
+      obtain ⟨a, b, c', d, e, f, o1, o2⟩ := cover_ok_sound g hg M0 hM c.1 c.2 hc
+      exact ⟨hM, a, b, c', d, e, f, o1, o2⟩
+
+/-- The `assert` of `minimum_vertex_cover` never fails, and neither the BFS fuel nor the
+    exploration fuel is ever exhausted. -/
+theorem mvc_never_fails_partial (g : Graph) (hg : g.WF) :
+    minimumVertexCover g ≠ .error .assertion ∧ minimumVertexCover g ≠ .error .fuelExplore := by
+  have key : ∀ M, hopcroftKarp g = .ok M → ∃ cu cv, coverOf g M = .ok (cu, cv) := by
+    intro M hM0
+    have hM := hk_matching_valid g M hM0
+    unfold hopcroftKarp at hM0
+    split at hM0
+    · exact absurd hM0 (by simp)
+    · rename_i s hrun
+      simp only [Except.ok.injEq] at hM0
+      subst hM0
+      obtain ⟨hs, hb, hnil⟩ := hkLoop_final g _ _ s (init_consistent g) hrun
+      obtain ⟨hfree, hclosed⟩ := final_closure g hg s hs hb hnil
+      obtain ⟨cu, cv, hc, _⟩ := koenig_cover g hg _ hM _ hfree hclosed
+      exact ⟨cu, cv, hc⟩
+  unfold minimumVertexCover
+  cases hM0 : hopcroftKarp g with
+  | error e =>
+    simp only
+    constructor
+    · intro he
+      simp only [Except.error.injEq] at he
+      subst he
+      -- hopcroftKarp never raises the cover assertion
+      unfold hopcroftKarp at hM0
+      split at hM0
+      · rename_i e' hrun
+        simp only [Except.error.injEq] at hM0
+        subst hM0
+        exact hkLoop_error g _ _ _ hrun (Or.inl rfl)
+      · exact absurd hM0 (by simp)
+    · intro he
+      simp only [Except.error.injEq] at he
+      subst he
+      unfold hopcroftKarp at hM0
+      split at hM0
+      · rename_i e' hrun
+        simp only [Except.error.injEq] at hM0
+        subst hM0
+        exact hkLoop_error g _ _ _ hrun (Or.inr rfl)
+      · exact absurd hM0 (by simp)
+  | ok M =>
+    obtain ⟨cu, cv, hc⟩ := key M hM0
+    simp only [hc]
+    constructor <;> simp
+
 /-! ### Non-vacuity: concrete instances -/
 
 /-- the 3x3 "path" graph 0-0, 1-0, 1-1, 2-1, 2-2 with a duplicated entry and an isolated vertex -/
@@ -188,5 +313,27 @@ example : IsCover exGraph.edge [1, 2] [0] := by
 example : coverOf exGraph [(0, 0), (1, 1), (2, 2)] = .ok ([0, 1, 2], []) := by rfl
 -- a non-maximum matching makes the code's own assert fail (hence the closure hypothesis)
 example : coverOf exGraph [(1, 0), (2, 1)] = .error .assertion := by rfl
+
+
+/-- `K_{2,1}`: one left vertex stays free; the closure hypotheses of `koenig_cover` hold with
+    `R` = both left vertices (both are reachable: 1 is free, 0 via the matched edge). -/
+def exStar : Graph := (mkGraph 2 1 [(0, 0), (1, 0)]).getD (Graph.empty 1 1)
+
+example : IsMatching exStar.edge [(0, 0)] := ⟨by decide, by decide, by decide⟩
+example : (∀ u, u < exStar.nU → (∀ v, (u, v) ∉ [(0, 0)]) → (fun _ => True) u) ∧
+    (∀ u v, (fun _ : Nat => True) u → exStar.edge u v → ∃ w, (w, v) ∈ [(0, 0)] ∧ (fun _ => True) w) := by
+  refine ⟨fun _ _ _ => trivial, ?_⟩
+  intro u v _ h
+  rw [(mkGraph_spec 2 1 [(0, 0), (1, 0)] exStar (by decide)).2.2.2 u v] at h
+  simp only [List.mem_cons, Prod.mk.injEq, List.not_mem_nil, or_false] at h
+  refine ⟨0, ?_, trivial⟩
+  rcases h with h | h <;> simp [h.2]
+example : minimumVertexCover exStar = .ok ([(0, 0)], [], [0]) := by rfl
+-- hypotheses of `hk_augment_preserves` / `bfs_false_closed`: the initial state is consistent and
+-- vertex 1 is free; the BFS on the initial state of `exStar` finds a path (dist[NIL] = 1)
+example : Consistent exStar HK.init ∧ HK.init.mU 1 = none := ⟨init_consistent _, rfl⟩
+example : (bfs exStar HK.init).map (fun d => (d none, d (some 0), d (some 1))) = some (1, 0, 0) := by rfl
+example : (hkRun exStar).toOption.map (fun s => (s.mU 0, s.mU 1, s.mV 0, s.dist none, s.dist (some 0), s.dist (some 1)))
+    = some (some 0, none, some 0, 3, 1, 0) := by rfl
 
 end Ptn.C14
